@@ -451,19 +451,29 @@ def read_write_seq():
 
 
 SEQ_PATTERNS = {
-    'duration': ['duration = 0', 'duration += self.block_durations[block_counter]', 'num_blocks = len(self.block_events)'],
-    'adc_times': ['curr_dur = 0', 'curr_dur += self.block_durations[block_counter]',
+    'duration': ['event_count += self.block_events[block_counter] > 0', 'duration = 0', 'duration += self.block_durations[block_counter]', 'num_blocks = len(self.block_events)'],
+    'adc_times': ['curr_dur = 0', 't = np.cumsum(bd)', 'begin_block = np.searchsorted(t, time_range[0])',
+                  "end_block = np.searchsorted(t - bd, time_range[1], side='right')",
+                  'blocks = list(self.block_durations.keys())[begin_block:end_block]', 'curr_dur += self.block_durations[block_counter]',
                   't_adc.append((np.arange(block.adc.num_samples) + 0.5) * block.adc.dwell + block.adc.delay + curr_dur)',
                   'curr_dur = t[begin_block] - bd[begin_block]'],
-    'rf_times': ['curr_dur = 0', 'curr_dur += self.block_durations[block_counter]', 't = rf.delay + calc_rf_center(rf)[0]',
+    'rf_times': ['curr_dur = 0', 't = np.cumsum(bd)', 'begin_block = np.searchsorted(t, time_range[0])',
+                  "end_block = np.searchsorted(t - bd, time_range[1], side='right')",
+                  'blocks = list(self.block_durations.keys())[begin_block:end_block]', 'curr_dur += self.block_durations[block_counter]', 't = rf.delay + calc_rf_center(rf)[0]',
                  't_excitation.append(curr_dur + t)', 't_refocusing.append(curr_dur + t)',
                  'curr_dur = t[begin_block] - bd[begin_block]'],
-    'waveforms': ['curr_dur = 0', 'curr_dur += self.block_durations[block_counter]',
+    'waveforms': ['curr_dur = 0', 't = np.cumsum(bd)', 'begin_block = np.searchsorted(t, time_range[0])',
+                  "end_block = np.searchsorted(t - bd, time_range[1], side='right')",
+                  'blocks = list(self.block_durations.keys())[begin_block:end_block]', 'curr_dur += self.block_durations[block_counter]',
                   'cumsum(curr_dur + grad.delay, grad.rise_time, grad.flat_time, grad.fall_time)',
                   'cumsum(curr_dur + grad.delay, grad.rise_time, grad.fall_time)', 'curr_dur + grad.delay + grad.tt',
                   "curr_dur + grad.delay + np.concatenate(([0], grad.tt, [grad.tt[-1] + self.grad_raster_time / 2]))",
                   'curr_dur = t[begin_block] - bd[begin_block]'],
     'write': ["self.set_definition('TotalDuration', sum(self.block_durations.values()))"],
+    'rf_from_lib_data': ['rf.t = decompress_shape(compressed) * self.rf_raster_time',
+                         'rf.shape_dur = math.ceil((rf.t[-1] - eps) / self.rf_raster_time) * self.rf_raster_time',
+                         'rf.t = (np.arange(1, len(rf.signal) + 1) - 0.5) * self.rf_raster_time',
+                         'rf.shape_dur = len(rf.signal) * self.rf_raster_time'],
     'calculate_kspace': ['total_duration = sum(self.block_durations.values())',
                          't_excitation, fp_excitation, t_refocusing, _ = self.rf_times()', 't_adc, _ = self.adc_times()'],
 }
@@ -560,10 +570,11 @@ FP_SOURCES = {
     'Sequence.rf_times': _meth('rf_times'),
     'Sequence.waveforms': _meth('waveforms'),
     'Sequence.write': _meth('write'),
+    'Sequence.rf_from_lib_data': _meth('rf_from_lib_data'),
     'write_seq.blocks': _write_blocks,
 }
 FP_GROUPS = {
-    'FP_timing_check': ['check_timing', 'calc_duration', 'Sequence.check_timing'],
+    'FP_timing_check': ['check_timing', 'calc_duration', 'Sequence.check_timing', 'Sequence.rf_from_lib_data'],
     'FP_timeline': ['set_block.events', 'calc_duration', 'cumsum', 'Sequence.duration', 'Sequence.adc_times', 'Sequence.rf_times',
                     'Sequence.waveforms', 'Sequence.write', 'write_seq.blocks'],
 }
